@@ -1,6 +1,6 @@
 """Property -> rules mapping, level texts, assumptions."""
 from . import entries
-from .rules import (canon, castfit, codec, facade, flag, floatrule, guard, limbs, macro, sibling, structural, table, total_rule, unimpl,
+from .rules import (canon, castfit, codec, extremes, facade, flag, floatrule, guard, limbs, macro, sibling, structural, table, total_rule, unimpl,
                     variant, witness)
 
 COMMON_ASSUMPTIONS = [
@@ -252,7 +252,7 @@ PROPS = {
              "configuration (R-GUARD/byte); (d) overflow assertions of the counting functions in overflow-checked builds: "
              "discharged or one of 7 reviewed arithmetic rows (R-TOTAL/overflow-checks)", "every counting function's value, "
              "most_significant_bits",
-             rules_with_canon("C06", {"src/bits.rs"}, lambda ctx: [guard.byte_panics(ctx)] + operators_for("C06")(ctx)),
+             rules_with_canon("C06", {"src/bits.rs"}, lambda ctx: [guard.byte_panics(ctx), extremes.run(ctx)] + operators_for("C06")(ctx)),
              ["values of the counting functions", "most_significant_bits", "reverse_bits"]),
     "C07": P("C07", "(a) every TryFrom/wrapping/saturating conversion in either direction and the *_from_limbs_slice "
              "constructors reach no undischarged panic site: each asserting from_limbs is behind a top-limb bound "
